@@ -219,9 +219,9 @@ def build_cases(seed, tier):
         q, t, iq, it = SIZES[f]
         return (t if thorough else q), (it if thorough else iq)
 
-    def add(cid, rules, uctx, inputs, tags, group=None, variant=None):
+    def add(cid, rules, uctx, inputs, tags, group=None, variant=None, solo=False):
         cases.append(dict(id=cid, rules=rules, settings=dict(uctx=uctx), inputs=inputs, tags=tags, group=group,
-                          variant=variant))
+                          variant=variant, solo=solo))
 
     def std_inputs(rules, multibyte, n, maxlen):
         ins = []
@@ -231,7 +231,7 @@ def build_cases(seed, tier):
         return ins
 
     for c in corpus.cases():
-        add(c['id'], c['rules'], False, c['inputs'], c['tags'])
+        add(c['id'], c['rules'], False, c['inputs'], c['tags'], solo=c.get('solo', False))
     maxlen = 60 if thorough else 40
     for fam in ('mix', 'hooks', 'ws', 'multibyte'):
         n, ni = size(fam)
